@@ -642,6 +642,31 @@ def laws(rng, tier, ctx):
                 yield Finding('violation', dict(tag='law-pd2np-int-array' if k6 else 'law-transparent-containers', lines=[],
                                                 values=[sig_enc(sig), decos_enc(ds), show(a), show(k)]),
                               'decorated call %s(*%s, **%s) gives %s, f gives %s' % ([c for c, _ in ds], show(a), show(k), got, direct))
+    # (2c) a stack that CONTAINS cache, called several times (the stack lines make one call per constructed stack): every reply is what
+    # f returns on that call, and f runs once per distinct call
+    for _ in range(300 if tier == 'quick' else 5000):
+        sig, args, kw = rng.choice(allcalls)
+        sig2, args2, kw2 = sig, [x + 100 for x in args], {n: x + 100 for n, x in kw.items()}
+        if not args and not kw:
+            continue
+        others = [c for c in rng.sample(['try_value', 'kwargs_support', 'pd2np', 'try_back'], rng.choice([0, 1, 2]))]
+        ds = [(c, deco_params(rng, c)) for c in others + ['cache_func']]
+        rng.shuffle(ds)
+        if sig[3] and any(c == 'kwargs_support' for c, _ in ds) and any(n not in sig[0] for n in kw):
+            continue              # K1
+        f = make_fn(sig)
+        g = f
+        for cls, params in ds:
+            g = construct(cls, params, g)
+        count += 1
+        Counter.n = 0
+        hist = [(args, kw), (args2, kw2), (args, kw), (args2, kw2), (args, kw)]
+        outs = [res_val(lambda: g(*copy.deepcopy(a), **copy.deepcopy(k))) for a, k in hist]
+        evals = Counter.n
+        exps = [f(*a, **k) for a, k in hist]
+        if outs != exps or evals != 2:
+            yield Finding('violation', dict(tag='law-cache-in-stack', lines=['(deco stack %s %s %s %s)' % (sig_enc(sig), decos_enc(ds), enc(list(args)), enc(dict(kw)))]),
+                          'stack with cache called 5 times on 2 distinct calls: replies %r, f gives %r, f evaluated %d times' % (outs, exps, evals))
     # (3) wrapping twice = wrapping once, directly and through a chain of other decorators
     base = make_fn((['a', 'b'], [1], None, None))
     for c in CLASSES:
